@@ -811,6 +811,21 @@ class Hostile(UperBase):
             if e.startswith("ok ") and e[3:] != "-":
                 reqs.append(f"uper dec {n} {self.desc[n]} {e[3:]}")
                 reqs.append(f"uper dec {n} {self.desc[n]} {e[3:-9]}")
+        # fragmented values (>= 16K items) whose declared length ends inside a continuation fragment, at every
+        # alignment of the last octet: the octets behind the declared length exist (the harness appends them)
+        frag_reqs = []
+        for n in ("zoo_leaf::BitsAny", "zoo_leaf::BitsExt", "zoo_leaf::OctAny", "zoo_leaf::Ia5Any", "zoo_leaf::ListBoolBig"):
+            if n not in self.desc:
+                continue
+            node = ty_nodes(self.desc[n])[1]
+            for sz in (16384 + 45, 16383, 2 * 16384 + 3):
+                val = RoundTrip.long_value(node, sz, rng)
+                if val:
+                    frag_reqs.append((n, f"uper enc {n} {self.desc[n]} (seq {val})"))
+        for (n, _), e in zip(frag_reqs, vlib.run_lines(self.h, [r for _, r in frag_reqs])):
+            if e.startswith("ok ") and len(e) > 64:
+                for cut in (0, 1, 2, 3, 5, 7, 8, 9, 13, 44, 45, 46):
+                    reqs.append(f"uper dec {n} {self.desc[n]} {e[3:len(e) - cut]}")
         return reqs
 
     def oracle(self, req, ans):
